@@ -55,7 +55,8 @@ Call(m, F, custom, nilRecv) ==
 (*   values   "stub": the non-error results are those m's function gave,   *)
 (*            "zero": they are the zero values of their types;             *)
 (*   error    "stub": whatever m's function returned (nil or not),         *)
-(*            "ctor": identical to the constructor's error,                *)
+(*            "ctor": identical to the constructor's result, nil included  *)
+(*            (or the constructor's panic, propagated),                    *)
 (*            "unsupported": errors.Is(err, ErrUnsupported);               *)
 (*   yields   for an iterator-returning method, how many (value, error)    *)
 (*            pairs the iterator delivers before it stops, even if the     *)
@@ -73,6 +74,41 @@ Effects(m, o) ==
    iter   |-> m \in IterMethods,
    yields |-> IF m \notin IterMethods THEN "none"
               ELSE IF o.kind = "delegate" THEN "stub" ELSE "one"]
+
+(***************************************************************************)
+(* The constructor is the caller's function; the table adds nothing to and *)
+(* takes nothing from what it does.  Whatever it RETURNS is the error of   *)
+(* the unset method - also when that is nil (a table whose unimplemented   *)
+(* operations are silent no-ops): the method then returns zero values and  *)
+(* a nil error, and an iterator-returning method an iterator of exactly    *)
+(* one pair (zero value, nil) (ErrorSeq(nil), iter.go).  If it PANICS, the *)
+(* panic propagates to the caller with the constructor's panic value.      *)
+(* Kinds of constructor the cases use: a fresh error per call ("tag"), nil *)
+(* ("nil"), one and the same error value every time ("same"), an error     *)
+(* determined by method name and repository ("byarg"), a panic ("panic").  *)
+(***************************************************************************)
+CtorKinds == {"tag", "nil", "same", "byarg", "panic"}
+CtorPanics(ck) == ck = "panic"
+
+(***************************************************************************)
+(* A delegated iterator is the delegate's, verbatim: the consumer sees the *)
+(* delegate's pairs in order, errors in the middle included, up to and     *)
+(* including the pair at which it declines.  Consumers used by the cases:  *)
+(* "all" keeps accepting (also after an error), "first" declines at the    *)
+(* first pair, "aterr" at the first pair with an error, "aftererr" one     *)
+(* pair later.  isErr[i] tells whether pair i of the delegate carries an   *)
+(* error; Seen is the number of pairs the consumer is handed.              *)
+(***************************************************************************)
+Consumers == {"all", "first", "aterr", "aftererr"}
+Min(a, b) == IF a < b THEN a ELSE b
+FirstErr(isErr) == IF \E i \in 1..Len(isErr) : isErr[i]
+                   THEN CHOOSE i \in 1..Len(isErr) : isErr[i] /\ \A j \in 1..(i - 1) : ~isErr[j]
+                   ELSE Len(isErr) + 1
+Seen(consumer, isErr) ==
+  CASE consumer = "all" -> Len(isErr)
+    [] consumer = "first" -> Min(1, Len(isErr))
+    [] consumer = "aterr" -> Min(FirstErr(isErr), Len(isErr))
+    [] consumer = "aftererr" -> Min(FirstErr(isErr) + 1, Len(isErr))
 
 \* The method name the table reports: the second argument of the constructor, and the
 \* prefix of the default error's message ("<name>: the operation is unsupported").
